@@ -272,7 +272,7 @@ partial def evalV (x : Ctx) : V → R Bits
     let strict := liftRes (Seq.parseBytes x.c bytes)
     let viaSyms := do let ss ← symsOfAscii x.c bytes; pure (Seq.extend x.c [] ss)
     match entry with
-    | "str" | "string" | "refstring" | "fromstr" =>
+    | "str" | "string" | "refstring" | "fromstr" | "parse" | "fromstrtrait" | "tryfromtrait" =>
       if validUtf8 bytes then strict else .error (.badOp "not utf8")
     | "bytes" | "vec" => strict
     | "collect" | "fromvec" | "extend" | "collectf" | "collectn" => viaSyms
@@ -675,7 +675,13 @@ def query (x : Ctx) (q : String) : Q String := do
     let cs ← qres (seqRes (Iter.chunks x.p c bs w))
     let d := displayHex x bs
     if d = "panic" then pure "panic" else
-    pure s!"{n} {boolStr (n == 0)} {gs} {gs} {nth} {codesStr f} {codesStr f} {codesStr b} {d} {content c bs} {content c bs} {slicesStr c ws} {slicesStr c cs} true"
+    let idx ← if i ≤ n then do
+        let a ← qres (Seq.index x.p c bs .range (i / 2) i)
+        let b' ← qres (Seq.index x.p c bs .rangeFrom (i / 2) 0)
+        let c' ← qres (Seq.index x.p c bs .rangeTo 0 i)
+        pure s!"{content c a} {content c b'} {content c c'} {content c bs}"
+      else pure "- - - -"
+    pure s!"{n} {boolStr (n == 0)} {gs} {gs} {nth} {codesStr f} {codesStr f} {codesStr b} {d} {content c bs} {content c bs} {slicesStr c ws} {slicesStr c cs} true {idx}"
   | "showv" => do
     let v ← qlift parseV; let bs ← qr (evalV x v)
     let d := displayHex x bs
@@ -844,7 +850,9 @@ def query (x : Ctx) (q : String) : Q String := do
       else if x.name = "amino" then s!"{hex2 b}{utf8Hex [c.toChar b]}"
       else if x.name = "text" then hex2 b
       else "-"
-    pure s!"{c.width} {o (c.tryFromBits b)} {u (c.unsafeFromBits b)} {o (c.tryFromAscii b)} {u (c.unsafeFromAscii b)} {c.toChar b} {un (hasComp c) c.comp} {un (hasMask c) c.mask} {un (hasMask c) c.unmask} {forms}"
+    -- the same functions called on the concrete codec type
+    let conc := if isSym then s!"{hex2 (c.toChar b)} {hex2 b} {o (c.tryFromBits b)} {o (c.tryFromAscii b)} {String.join (c.items.map hex2)}" else "-"
+    pure s!"{c.width} {o (c.tryFromBits b)} {u (c.unsafeFromBits b)} {o (c.tryFromAscii b)} {u (c.unsafeFromAscii b)} {c.toChar b} {un (hasComp c) c.comp} {un (hasMask c) c.mask} {un (hasMask c) c.unmask} {forms} {conc}"
   | "items" => pure (String.join (c.items.map hex2))
   | _ => throw (.badOp s!"unknown query {q}")
 
